@@ -6,5 +6,9 @@ FUNCTIONS = ["toasty.toast.toast_tile_for_point"]
 LEMMAS = []
 SLOW = ()
 TRUSTED_BASE = ["pyvc VC generator; z3/cvc5", "machine floats treated as reals; np.radians(x) = x*pi/180"]
-ASSUMPTIONS = ["containment below level 1 (half-space scores in floating point), nesting of the descent and the pixel fit are bounded-tier only"]
-EXPLANATION = "level-1 quadrant selection proved against the documented layout in both coordinate systems for every real longitude"
+ASSUMPTIONS = ["that the best-scoring child geometrically CONTAINS the point (the half-space scores in floating point: cross/dot products of "
+               "unit vectors, here an uninterpreted finite number <= 0 per edge) and the pixel fit of toast_pixel_for_point are bounded-tier only"]
+EXPLANATION = ("level-1 quadrant selection proved against the documented layout in both coordinate systems for every real longitude, with the "
+               "corners/orientation of the requested system; descent for every depth >= 1 (loop invariant): the result is at the requested "
+               "depth below that level-1 tile, each step moves to a child whose containment score is 0 or maximal among the four, every "
+               "score tests the caller's latitude and normalised longitude against the four directed edges of that child")
